@@ -54,15 +54,15 @@ def wf(o, pe):
     elif not isinstance(v, (float, np.floating, int, np.integer)):
         return 'central value has type %s' % type(v).__name__
     names = list(o.names)
-    if names != sorted(names):
-        return 'names not sorted: %s' % names
-    if len(set(names)) != len(names):
-        return 'names not unique: %s' % names
     for n in names:
         if not isinstance(n, str):
             return 'name %r is not a string' % (n,)
+    if len(set(names)) != len(names):
+        return 'names not unique: %s' % names
     covn = set(o.covobs.keys())
     mc = [n for n in names if n not in covn]
+    if mc != sorted(mc):
+        return 'chain names not sorted: %s' % mc
     if set(names) != set(mc) | covn:
         return 'names %s do not equal chains + covariance names' % names
     if set(mc) != set(o.deltas.keys()):
